@@ -52,8 +52,21 @@ Theorem C02_accept : forall input f, ~ In EOFR input -> spec_parse (terminated i
   exists ss, Parse input = (ss, [], false) /\ map erase ss = f.
 Proof. exact Parse_accepts. Qed.
 
+(* (3) rejection: whenever the reference reader rejects a text — a token that cannot be read (a quote or
+   a block comment that is never closed, an undefined escape outside a pattern argument), a token where
+   none may stand (a quoted string or punctuation for a keyword, something other than a semicolon or an
+   opening brace after the argument, a + that does not join two quoted strings), a block that is never
+   closed, a closing brace that closes nothing, a text that ends inside a statement — the parser returns
+   no statements and a non-empty list of errors.  For all texts, no size bound. *)
+Theorem C02_reject : forall input, ~ In EOFR input -> spec_parse (terminated input) = Reject ->
+  forall ss es o, Parse input = (ss, es, o) -> ss = [] /\ es <> [].
+Proof. exact Parse_rejects. Qed.
+
 (* non-vacuity: a text with a comment, a concatenation, a multi-line string and a pattern argument *)
 Example C02_accept_ex :
   spec_parse [97;32;39;98;39;43;34;99;10;32;32;32;100;34;123;112;97;116;116;101;114;110;32;34;92;100;34;59;125;10]%N =
   Accept [Node [97%N] true [98;99;10;100]%N [Node [112;97;116;116;101;114;110]%N true [92;100]%N []]].
+Proof. vm_compute. reflexivity. Qed.
+(* a text that ends inside a block *)
+Example C02_reject_ex : spec_parse [97;32;123;32;98;59;10]%N = Reject.
 Proof. vm_compute. reflexivity. Qed.
